@@ -4,6 +4,15 @@ requests:
   c17.cmap4  <language> <cp gid>…      `Cmap4::serialize` on a plain list (`-` = empty)
   c17.cmap12 <language> <cp gid>…      `Cmap12::serialize`
   c17.ranges <cp gid>…                 `to_ranges`: the (start end delta) triples
+  c17.cmap <numGlyphs> <nU> unicodes… <nM> (cp newgid)… <nQ> requested gids… <nG> (old new)… <nR> records…
+     record := <platform> <encoding> f4 <lang> <n> ends… starts… deltas… offsets… <m> glyphIdArray…
+             | <platform> <encoding> f12 <lang> <n> (start end gid)…
+             | <platform> <encoding> f14 <n> { <selector> <0|1> <k> (start count)… <0|1> <k> (unicode gid)… }…
+             | <platform> <encoding> fo <format> <lang>     (readable, other format)
+             | <platform> <encoding> fu                      (unreadable)
+     `Cmap::subset` + the serializer's packing: the whole cmap table
+  c17.unicodes4 / c17.unicodes12 : `collect_unicodes` of one subtable (same subtable syntax, after f4 / f12;
+     f12 is preceded by numGlyphs)
 responses: `ok <hex>` | `err:<flag>` | `trap`
 -/
 import FontVerif.Model.SubsetCmap
@@ -23,6 +32,95 @@ def fmtOut : Out (List Nat) → String
   | .err e => s!"err:{e}"
   | .trap => "trap"
 
+/-- token stream parser -/
+abbrev P (α : Type) := List String → Option (α × List String)
+
+def pNat : P Nat
+  | [] => none
+  | t :: ts => (parseNat? t).map (·, ts)
+
+def pInt : P Int
+  | [] => none
+  | t :: ts => (parseInt? t).map (·, ts)
+
+def pTok : P String
+  | [] => none
+  | t :: ts => some (t, ts)
+
+def pMany {α : Type} (p : P α) : Nat → P (List α)
+  | 0, ts => some ([], ts)
+  | n + 1, ts =>
+    match p ts with
+    | none => none
+    | some (a, ts) =>
+      match pMany p n ts with
+      | none => none
+      | some (as, ts) => some (a :: as, ts)
+
+def pCounted {α : Type} (p : P α) : P (List α) := fun ts =>
+  match pNat ts with
+  | none => none
+  | some (n, ts) => pMany p n ts
+
+def pPair : P (Nat × Nat) := fun ts => do
+  let (a, ts) ← pNat ts
+  let (b, ts) ← pNat ts
+  some ((a, b), ts)
+
+def pTriple : P (Nat × Nat × Nat) := fun ts => do
+  let (a, ts) ← pNat ts
+  let (b, ts) ← pNat ts
+  let (c, ts) ← pNat ts
+  some ((a, b, c), ts)
+
+def pF4 : P (Nat × Cmap.Cmap4) := fun ts => do
+  let (lang, ts) ← pNat ts
+  let (n, ts) ← pNat ts
+  let (ends, ts) ← pMany pNat n ts
+  let (starts, ts) ← pMany pNat n ts
+  let (deltas, ts) ← pMany pInt n ts
+  let (offs, ts) ← pMany pNat n ts
+  let (arr, ts) ← pCounted pNat ts
+  some ((lang, { endCode := ends.toArray, startCode := starts.toArray, idDelta := deltas.toArray,
+                 idRangeOffsets := offs.toArray, glyphIdArray := arr.toArray }), ts)
+
+def pOptPairs : P (Option (List (Nat × Nat))) := fun ts => do
+  let (flag, ts) ← pNat ts
+  let (l, ts) ← pCounted pPair ts
+  some (if flag = 0 then none else some l, ts)
+
+def pVarSel : P VarSelIn := fun ts => do
+  let (sel, ts) ← pNat ts
+  let (d, ts) ← pOptPairs ts
+  let (n, ts) ← pOptPairs ts
+  some ({ selector := sel, defaults := d, nonDefaults := n }, ts)
+
+def pSub : P SubIn := fun ts => do
+  let (kind, ts) ← pTok ts
+  match kind with
+  | "f4" => do
+    let ((lang, t), ts) ← pF4 ts
+    some (.f4 lang t, ts)
+  | "f12" => do
+    let (lang, ts) ← pNat ts
+    let (gs, ts) ← pCounted pTriple ts
+    some (.f12 lang gs, ts)
+  | "f14" => do
+    let (rs, ts) ← pCounted pVarSel ts
+    some (.f14 rs, ts)
+  | "fo" => do
+    let (f, ts) ← pNat ts
+    let (l, ts) ← pNat ts
+    some (.other f l, ts)
+  | "fu" => some (.unreadable, ts)
+  | _ => none
+
+def pRec : P RecIn := fun ts => do
+  let (p, ts) ← pNat ts
+  let (e, ts) ← pNat ts
+  let (s, ts) ← pSub ts
+  some ({ platform := p, encoding := e, sub := s }, ts)
+
 def handle (cmd : String) (args : List String) : Option String :=
   match cmd with
   | "c17.cmap4" => do
@@ -35,6 +133,30 @@ def handle (cmd : String) (args : List String) : Option String :=
     match toRanges (← pairs (← natList args)) with
     | none => some "trap"
     | some rs => some (" ".intercalate (rs.map (fun r => s!"{r.1}:{r.2.1}:{r.2.2}")))
+  | "c17.cmap" => do
+    let (numGlyphs, ts) ← pNat args
+    let (us, ts) ← pCounted pNat ts
+    let (u2g, ts) ← pCounted pPair ts
+    let (req, ts) ← pCounted pNat ts
+    let (gm, ts) ← pCounted pPair ts
+    let (recs, ts) ← pCounted pRec ts
+    if !ts.isEmpty then none else
+    -- an `Err` that set the serializer's error flag makes `subset_font` fail; any other `Err` drops the table
+    match subsetCmap recs { unicodes := us, u2g := u2g, glyphsRequested := req, glyphMap := gm,
+                            numGlyphs := numGlyphs } with
+    | .ok b => some s!"ok {toHex b}"
+    | .err "int-overflow" => some "fail"
+    | .err _ => some "absent"
+    | .trap => some "trap"
+  | "c17.unicodes4" => do
+    let ((_, t), ts) ← pF4 args
+    if !ts.isEmpty then none else
+    some (joinNats ((collect4 t).mergeSort (· ≤ ·)).eraseDups)
+  | "c17.unicodes12" => do
+    let (numGlyphs, ts) ← pNat args
+    let (gs, ts) ← pCounted pTriple ts
+    if !ts.isEmpty then none else
+    some (joinNats ((collect12 gs numGlyphs).mergeSort (· ≤ ·)).eraseDups)
   | _ => none
 
 end FontVerif.Drv.C17Cmap
